@@ -1156,6 +1156,15 @@ Vector Find_Eigenvector_Rayleigh(Matrix& M, double& eigenvalue)
 			b = (-1.0) * b;
 		epsilon = (b - b_before).Norm();
 	}
+	// The inverse of the nearly singular shifted matrix is only accurate to (condition number)*epsilon. Two further steps, written
+	// as a correction by the residual, bring M*b - lambda*b down to rounding level.
+	for(int refinement = 0; refinement < 2; refinement++)
+	{
+		double lambda	= b * (M * b);
+		Vector residual = M * b - lambda * b;
+		b				= b - shifted_inverse * residual;
+		b.Normalize();
+	}
 	eigenvalue = b * (M * b);
 	return b;
 }
